@@ -20,7 +20,7 @@ use verif_pt::sexp::{Rng, Term};
 pub const NLRI_SEEDS: &str = include_str!("nlri_seeds.txt");
 
 pub fn hex(b: &[u8]) -> String {
-    Term::bytes(b).to_string()
+    bytes_split_t(b).to_string()
 }
 
 fn unhex(s: &str) -> Option<Vec<u8>> {
@@ -631,7 +631,8 @@ pub fn mutate_bgp(r: &mut Rng, msg: &[u8], ap4: bool, ap6: bool, ext: bool) -> V
             b[17] = l as u8;
         }
     };
-    match r.below(16) {
+    let pickm = if b.len() >= 29 && b[18] == 1 && r.chance(1, 3) { 15 } else { r.below(17) };
+    match pickm {
         0..=4 if !lay.lens.is_empty() => {
             // boundary value in one length field
             let (off, w) = *r.pick(&lay.lens);
@@ -726,13 +727,32 @@ pub fn mutate_bgp(r: &mut Rng, msg: &[u8], ap4: bool, ap6: bool, ext: bool) -> V
                 set_len(&mut b, 16, 2, v.min(65535));
             }
         }
-        14 => {
+        14 if r.chance(1, if ext { 12 } else { 3 }) => {
             // pad the frame up to just below / at / above the maximum message size
             let max = if ext { 65535 } else { 4096 };
             let target = *r.pick(&[max - 1, max, max + 1]);
             if b.len() < target && target <= 65535 + 1 {
                 b.resize(target.min(70000), 0);
                 fix_header(&mut b);
+            }
+        }
+        15 if b.len() >= 29 && b[18] == 1 => {
+            // OPEN fixed fields: version, hold time 1/2, unusable BGP identifiers, a non-capability optional parameter
+            match r.below(4) {
+                0 => b[19] = *r.pick(&[0u8, 3, 5, 255]),
+                1 => {
+                    b[22] = 0;
+                    b[23] = *r.pick(&[1u8, 2]);
+                }
+                2 => {
+                    let rid = *r.pick(&[0u32, 0xffffffff, 0xe0000001, 0xefffffff]);
+                    b[24..28].copy_from_slice(&rid.to_be_bytes());
+                }
+                _ => {
+                    if b.len() >= 31 {
+                        b[29] = *r.pick(&[0u8, 1, 3, 255]);
+                    }
+                }
             }
         }
         _ => {
